@@ -76,6 +76,24 @@ pub fn run(out: &str, threads: usize, sleeps: usize, seed: u64) {
                                                   "last_wake": w.last_wake_us.load(Ordering::SeqCst)}));
                             } else {
                                 let mut polls = 1;
+                                let mut w = w;
+                                let mut cx = cx;
+                                let waker2;
+                                if dur_us > 8_000 && rng.gen_bool(0.5) {
+                                    // the sleep is polled again before its deadline with ANOTHER waker (a future handed from
+                                    // block_timeout to block_on, or between tasks): from now on only that waker counts
+                                    std::thread::sleep(Duration::from_micros((dur_us / 4) as u64));
+                                    w = Arc::new(TaskWaker { wakes: AtomicU32::new(0), last_wake_us: AtomicI64::new(-1), thread: std::thread::current(), start });
+                                    waker2 = Waker::from(w.clone());
+                                    cx = Context::from_waker(&waker2);
+                                    polls += 1;
+                                    let again = s.as_mut().poll(&mut cx);
+                                    local.push(json!({"ev": "Repolled", "id": id, "t": us(), "ready": again.is_ready()}));
+                                    if again.is_ready() {
+                                        local.push(json!({"ev": "Ready", "id": id, "t": us(), "polls": polls}));
+                                        continue;
+                                    }
+                                }
                                 let give_up = t0 + dur_us + 8_000_000;
                                 let mut done = false;
                                 while us() < give_up {
